@@ -46,8 +46,13 @@ extern "C" int LLVMFuzzerTestOneInput(const uint8_t * data, size_t size)
         return true;
       };
       double es = 0, n = 0, lo = 0, hi = 0;
-      if (val("esum(max) = ", es) && val("e1(nsamples) = ", n) && val("e1(min) = ", lo) && val("e1(max) = ", hi) && n >= 2)
+      bool have = val("esum(max) = ", es) && val("e1(min) = ", lo) && val("e1(max) = ", hi) && val("e1(nsamples) = ", n);
+      if (have && n < 2) have = val("# e1/e2 energy prob samples = ", n); // the c.d.f. branch of print() reports the size there
+      if (have && n >= 2) {
         roomy = lo >= 0 && hi > lo && es >= 2 * lo + (hi - lo) / (n - 1);
+        // every sampled pair has e1 + e2 >= 2 E_min: a table with E_sum(max) <= 2 E_min allows no pair at all (the sampler would never return)
+        if (es <= 2 * lo) FZ_VIOLATION("the loader accepted a table in which no pair of energies is allowed (maximum energy sum <= 2 E_min)");
+      }
     }
     if (pdf && roomy) {
       // a p.d.f. table that was accepted must be able to produce an event: with the third deviate of every try at 1e-300 a
